@@ -8,6 +8,7 @@ pass); none of them knows about any property.
   int-from      `usize::from(x)` / `x.into()` between primitive integers            -> `x as usize` (lossless widening either way)
   then_some     `c.then_some(v)`                                                     -> `if c { Some(v) } else { None }`
   try_for_each  `it.try_for_each(|p| body)`                                          -> `{ for p in it { body?; } Ok(()) }`
+  mem-replace   `let old = mem::replace(&mut p, v);`                                 -> `let old = p; p = v;`
   or-split      `if a || b { <diverges> }` (no else)                                 -> `if a { <diverges> } if b { <diverges> }`
   inline        a call of a private, non-recursive, return-free function of the same crate that is not one of the functions of
                 the reference tree (spec/reference_functions.json) is replaced by its body, parameters substituted (place-like
@@ -254,6 +255,33 @@ def _or_split(n):
     if changed:
         n = dict(n, stmts=out)
     return n
+
+
+def _mem_replace(n):
+    """`let old = mem::replace(&mut place, v);` -> `let old = place; place = v;` (and the statement form without a binding)."""
+    if n.get("k") != "block":
+        return n
+    out = []
+    changed = False
+    for s in n.get("stmts", []):
+        s0 = hir.simp(s)
+        call, pat = None, None
+        if isinstance(s0, dict) and s0.get("k") == "let" and "els" not in s0 and "init" in s0:
+            c = hir.simp(s0["init"])
+            if isinstance(c, dict) and c.get("k") == "call" and (c.get("resolved") or c.get("callee")) == "core::mem::replace":
+                call, pat = c, s0["pat"]
+        elif isinstance(s0, dict) and s0.get("k") == "call" and (s0.get("resolved") or s0.get("callee")) == "core::mem::replace":
+            call = s0
+        if call is not None and len(call["args"]) == 2:
+            r = hir.simp(call["args"][0])
+            if isinstance(r, dict) and r.get("k") == "ref" and r.get("mut") and pure(r["e"]) and hir.place_str(r["e"]) and pure(call["args"][1]):
+                if pat is not None:
+                    out.append(dict(s0, init=copy.deepcopy(r["e"]), norm="mem-replace"))
+                out.append({"k": "assign", "l": r["e"], "r": call["args"][1], "ln": call.get("ln"), "ty": "()", "norm": "mem-replace"})
+                changed = True
+                continue
+        out.append(s)
+    return dict(n, stmts=out) if changed else n
 
 
 # ---------------------------------------------------------------------------------------------------------------------
@@ -739,6 +767,7 @@ def normalise_crate(name, crate):
                                            {x["inl"] for x in all_nodes(h2) if x.get("inl")})
             h = h2
         h = map_tree(h, _or_split)
+        h = map_tree(h, _mem_replace)
         h = cast_to_uses(h)
         h = alias(h, b.get("params", []))
         h = subst_int_lets(h)
